@@ -88,7 +88,7 @@ SPEC = {
     "theorems": [
         "C15_trigger_exactly_once", "C15_pre_trigger", "C15_weak_iteration", "C15_max_trigger_count", "C15_max_trigger_count_never_more",
         "C15_max_trigger_count_seq", "C15_max_trigger_count_hooks",
-        "C15_link", "C15_link_concurrent", "C15_registry_projection", "C15_pooled_exactly_once", "C15_pooled_drained", "C15_promise_once", "C15_notifier", "C15_notifier_wait_race",
+        "C15_link", "C15_link_concurrent", "C15_registry_projection", "C15_pooled_exactly_once", "C15_pooled_drained", "C15_pooled_exactly_once_drained", "C15_promise_once", "C15_notifier", "C15_notifier_wait_race",
         "C15_notifier_count_exact", "C15_notifier_concurrent", "C15_notifier_concurrent_hit", "C15_notifier_stale_listener_witness", "C15_notifier_double_deregister_witness", "C15_notifier_split_deregister_wait_witness",
         "C15_notifier_old_witness", "C15_notifier_wait_race_old_witness",
         "C15_skeleton_Listener_Wait", "C15_skeleton_Listener_Deregister", "C15_skeleton_Notifier_removeListener",
@@ -154,7 +154,8 @@ SPEC = {
                 "strength of its quantifier): success only if Notify(value) lies "
                 "between creation and deregistration; witnesses of the two repaired defects replayed on the code, and of the dependence on "
                 "the atomic Swap. Pooled hooks: C15_pooled_drained (any submitting triggers and workers: when the pending counter is 0 the "
-                "executed invocations are a permutation of the submitted ones). Registry refinement: C15_registry_simulation (pointer-level "
+                "executed invocations are a permutation of the submitted ones) and C15_pooled_exactly_once_drained (composed: the "
+                "conservation hypothesis discharged for the pool model). Registry refinement: C15_registry_simulation (pointer-level "
                 "map + hook counter vs abstract registry, every iterator read agrees) and C15_weak_iteration_code (weak iteration on the "
                 "code-level concurrent system by step-by-step simulation). Tie: differential runs of "
                 "the ev/it/mn/pr/vn/om machines (it: Hook/Unhook/LinkTo from inside callbacks; mn: nested triggers on the counter protocol; "
